@@ -23,6 +23,9 @@ struct Part {
     digests: Vec<String>,
     decoys: Vec<String>,
     min_salt_len: usize,
+    salt_or: u8,
+    salt_and: u8,
+    salt_values: Vec<bool>,
     bad_form: u64,
     count_violations: u64,
     count_seen: Vec<(i64, usize)>,
@@ -50,7 +53,7 @@ fn real_subsequence_in_marking_order(list: &[Value], digests_in_marking_order: &
 fn run_part(n: u64, offset: u64) -> Part {
     let (doc, paths) = document();
     let key = sdjwt::KeyForEncoding::from_secret(b"k");
-    let mut part = Part { min_salt_len: usize::MAX, ..Default::default() };
+    let mut part = Part { min_salt_len: usize::MAX, salt_and: 0xff, salt_values: vec![false; 256], ..Default::default() };
     // a credential with exactly one disclosable claim (every fourth issuer object): with decoys around it,
     // its single real digest must not be recognisable by its position
     let single_doc = json!({"a": 1, "z": {"k": 1}});
@@ -80,7 +83,15 @@ fn run_part(n: u64, offset: u64) -> Part {
                 let g = indep::hash("sha-256", d);
                 if let Some(Value::Array(parts)) = indep::decode_json(d) {
                     if let Some(s) = parts.first().and_then(|s| s.as_str()) {
-                        let len = indep::b64url_decode(s).map_or(0, |b| b.len());
+                        let bytes = indep::b64url_decode(s).unwrap_or_default();
+                        let len = bytes.len();
+                        // 128 bits of salt means every bit of every byte is drawn: over the pooled salts every bit position
+                        // takes both values and (nearly) every byte value occurs
+                        for b in &bytes {
+                            part.salt_or |= *b;
+                            part.salt_and &= *b;
+                            part.salt_values[*b as usize] = true;
+                        }
                         part.min_salt_len = part.min_salt_len.min(len);
                         part.salts.push(s.to_string());
                     } else {
@@ -174,13 +185,20 @@ pub fn exec_history(input: &Value) -> Value {
     let mut salts = Vec::new();
     let mut digests = Vec::new();
     let mut decoys = Vec::new();
-    let mut sum = Part { min_salt_len: usize::MAX, ..Default::default() };
+    let mut sum = Part { min_salt_len: usize::MAX, salt_and: 0xff, salt_values: vec![false; 256], ..Default::default() };
     for p in parts {
         salts.extend(p.salts);
         digests.extend(p.digests);
         decoys.extend(p.decoys);
         sum.issuances += p.issuances;
         sum.min_salt_len = sum.min_salt_len.min(p.min_salt_len);
+        sum.salt_or |= p.salt_or;
+        sum.salt_and &= p.salt_and;
+        for (k, seen) in p.salt_values.iter().enumerate() {
+            if *seen {
+                sum.salt_values[k] = true;
+            }
+        }
         sum.bad_form += p.bad_form;
         sum.count_violations += p.count_violations;
         sum.failures += p.failures;
@@ -203,6 +221,8 @@ pub fn exec_history(input: &Value) -> Value {
         "issuances": sum.issuances, "failures": sum.failures,
         "disclosures": digests.len(), "decoys": decoys.len(),
         "min_salt_bytes": if sum.min_salt_len == usize::MAX { 0 } else { sum.min_salt_len },
+        "salt_bits_constant": (!(sum.salt_or) | sum.salt_and).count_ones(),
+        "salt_byte_values_seen": sum.salt_values.iter().filter(|b| **b).count(),
         "dup_salts": dup_salts, "dup_digests": dup_digests, "dup_decoys": dup_decoys, "decoy_equals_real": decoy_is_real,
         "decoy_count_violations": sum.count_violations, "decoy_form_violations": sum.bad_form,
         "lists_seen": sum.lists_seen, "lists_in_marking_order": sum.marking_order,
